@@ -136,7 +136,9 @@ pub fn holder_jwk_json_canonical(alg: Alg, idx: usize) -> serde_json::Value {
 
 /// Additional issuer algorithms exercised through the signing oracle only (the properties list
 /// ES256 / EdDSA / HS256; RSA and P-384 tokens must of course obey the same rules).
-pub const EXTRA_ALGS: [&str; 5] = ["RS256", "PS256", "RS512", "PS384", "ES384"];
+pub const EXTRA_ALGS: [&str; 7] = ["RS256", "PS256", "RS512", "PS384", "ES384", "HS384", "HS512"];
+
+pub const EXTRA_HMAC_SECRET: &[u8] = b"an-hmac-secret-of-sixty-four-octets-for-HS384-and-HS512-issuers!!";
 
 pub fn extra_alg(name: &str) -> jsonwebtoken::Algorithm {
     use std::str::FromStr;
@@ -152,6 +154,9 @@ pub fn extra_enc(name: &str) -> EncodingKey {
     if name == "PS256/4096" {
         return EncodingKey::from_rsa_pem(include_str!("../keys/rsa4096_a.pem").as_bytes()).expect("rsa4096 key");
     }
+    if name.starts_with("HS") {
+        return EncodingKey::from_secret(EXTRA_HMAC_SECRET);
+    }
     if name == "ES384" {
         EncodingKey::from_ec_pem(include_str!("../keys/es384_a.pem").as_bytes()).expect("es384 key")
     } else {
@@ -164,6 +169,9 @@ pub fn extra_dec(name: &str) -> DecodingKey {
     }
     if name == "PS256/4096" {
         return DecodingKey::from_rsa_pem(include_str!("../keys/rsa4096_a.pub.pem").as_bytes()).expect("rsa4096 pub");
+    }
+    if name.starts_with("HS") {
+        return DecodingKey::from_secret(EXTRA_HMAC_SECRET);
     }
     if name == "ES384" {
         DecodingKey::from_ec_pem(include_str!("../keys/es384_a.pub.pem").as_bytes()).expect("es384 pub")
